@@ -8,6 +8,9 @@
 //             make the LP primal and/or dual degenerate.
 //   kind INF  as OPT, then a Farkas vector y is planted: the bounds / sides it needs are made finite and one side is
 //             moved until  max{y^T s : lhs<=s<=rhs} < min{y^T A x : lo<=x<=up}:  the LP is infeasible.
+//   kind COV  covering LP  min c x, A x >= b, x >= 0  with A >= 0, c >= 0 (or its maximisation mirror) and a planted KKT triple as for OPT: the slack
+//             basis is dual feasible, so the dual simplex runs without phase 1 and its objective value moves monotonically towards the optimum
+//             (the situation in which objective limits are tested).
 //   kind UNB  as OPT, then a ray r is planted: bounds / sides in its way are removed and one cost is moved until c r
 //             improves strictly: the LP is feasible (x0) and unbounded.
 //
@@ -21,7 +24,7 @@ namespace vx
 {
 struct PlantedSpec
 {
-   int kind = 0;       // 0 OPT, 1 INF, 2 UNB
+   int kind = 0;       // 0 OPT, 1 INF, 2 UNB, 3 COV (covering LP with finite optimum)
    int n = 0, m = 0;
    int density = 40;   // percent of nonzeros
    int degenerate = 0; // 1: many tight constraints with zero multipliers
@@ -40,7 +43,7 @@ struct PlantedSpec
       p.magnitude = 0;
       return sscanf(s.c_str(), "P:%d:%d:%d:%d:%d:%d:%d:%d", &p.kind, &p.n, &p.m, &p.density, &p.degenerate, &p.maximize, &p.seed, &p.magnitude) >= 7;
    }
-   const char* kindName() const { return kind == 0 ? "OPT" : kind == 1 ? "INF" : "UNB"; }
+   const char* kindName() const { return kind == 0 ? "OPT" : kind == 1 ? "INF" : kind == 2 ? "UNB" : "COV"; }
 };
 
 struct PlantedLP
@@ -71,6 +74,37 @@ inline PlantedLP planted(const PlantedSpec& sp)
    lp.resize(n, m);
    lp.maximize = sp.maximize != 0;
    lp.offset = 3;
+   if(sp.kind == 3)
+   {
+      // covering LP
+      for(int i = 0; i < m; ++i) for(int j = 0; j < n; ++j) if(g.pct(sp.density)) lp.A[i][j] = g.range(1, 3);
+      for(int i = 0; i < m && n > 0; ++i) { bool any = false; for(int j = 0; j < n; ++j) any = any || lp.A[i][j] != 0; if(!any) lp.A[i][g.upto(n)] = g.range(1, 2); }
+      std::vector<double>& x0 = P.x0;
+      x0.assign(n, 0);
+      int zeroPct = sp.degenerate ? 50 : 15;
+      std::vector<double> d0(n, 0), y0(m, 0), c(n, 0);
+      for(int j = 0; j < n; ++j)
+      {
+         lp.lo[j] = 0; lp.up[j] = INF;
+         if(g.pct(45)) { x0[j] = 0; d0[j] = g.pct(zeroPct) ? 0 : g.range(1, 3); }
+         else x0[j] = g.range(1, 3);
+      }
+      for(int i = 0; i < m; ++i)
+      {
+         double act = 0;
+         for(int j = 0; j < n; ++j) act += lp.A[i][j] * x0[j];
+         lp.rhs[i] = INF;
+         if(g.pct(sp.degenerate ? 75 : 50)) { lp.lhs[i] = act; y0[i] = g.pct(zeroPct) ? 0 : g.range(1, 3); }
+         else lp.lhs[i] = act - g.range(1, 4);
+      }
+      for(int j = 0; j < n; ++j) { c[j] = d0[j]; for(int i = 0; i < m; ++i) c[j] += lp.A[i][j] * y0[i]; }
+      for(int j = 0; j < n; ++j) lp.c[j] = lp.maximize ? -c[j] : c[j];
+      P.cl.feasible = P.cl.dualfeasible = P.cl.hasopt = true;
+      Q v = q_of_double(lp.offset);
+      for(int j = 0; j < n; ++j) v += q_of_double(lp.c[j]) * q_of_double(x0[j]);
+      P.cl.opt = v;
+      return P;
+   }
    // matrix
    for(int i = 0; i < m; ++i)
       for(int j = 0; j < n; ++j)
@@ -245,7 +279,7 @@ inline PlantedLP planted(const PlantedSpec& sp)
 inline std::string planted_selfcheck(const PlantedLP& P)
 {
    XLP x = P.lp.exact();
-   if(P.spec.kind == 1) return "";
+   if(P.spec.kind == 1) return "";     // (kinds 0, 2, 3: x0 is feasible)
    for(int j = 0; j < x.n; ++j)
    {
       Q v = q_of_double(P.x0[j]);
@@ -269,12 +303,13 @@ struct PlantedGrid
    std::vector<int> densities;
    int seeds = 1;
    int magnitudes = 1;      // 2: every member also in its power-of-two rescaled form
-   uint64_t size() const { return (uint64_t)sizes.size() * densities.size() * 2 * 2 * 3 * seeds * magnitudes; }
+   int kinds = 3;           // 4: also the covering LPs (kind COV)
+   uint64_t size() const { return (uint64_t)sizes.size() * densities.size() * 2 * 2 * kinds * seeds * magnitudes; }
    PlantedSpec at(uint64_t idx) const
    {
       PlantedSpec p;
       p.magnitude = idx % magnitudes; idx /= magnitudes;
-      p.kind = idx % 3; idx /= 3;
+      p.kind = idx % kinds; idx /= kinds;
       p.maximize = idx % 2; idx /= 2;
       p.degenerate = idx % 2; idx /= 2;
       p.density = densities[idx % densities.size()]; idx /= densities.size();
